@@ -223,6 +223,56 @@ pub fn spaces(tier: Tier) -> Vec<Space<'static>> {
             }
         }));
     }
+    // NaN and the infinities (JSONB numbers that no text can spell), handed over as the model's bytes,
+    // as the bytes jsonb's own Value encoder writes, and rebuilt by the builders
+    {
+        let al: Vec<RVal> = vec![RVal::f(f64::NAN), RVal::f(f64::INFINITY), RVal::f(f64::NEG_INFINITY), RVal::u(1), RVal::s("a"), RVal::arr(vec![RVal::f(f64::NAN)]), RVal::obj(vec![("a", RVal::f(f64::NAN)), ("b", RVal::f(f64::INFINITY))])];
+        let mut docs: Vec<RVal> = vec![];
+        for x in &al {
+            docs.push(x.clone());
+            docs.push(RVal::Arr(vec![x.clone()]));
+            for y in &al {
+                docs.push(RVal::Arr(vec![x.clone(), y.clone()]));
+                docs.push(RVal::Arr(vec![x.clone(), y.clone(), x.clone()]));
+            }
+        }
+        let forms: Arc<Vec<(RVal, Vec<Vec<u8>>)>> = Arc::new(
+            docs.into_iter()
+                .map(|d| {
+                    let own = guard(|| crate::conv::to_value(&d).to_vec()).unwrap_or_default();
+                    let rebuilt = guard(|| { let mut o = vec![]; jsonb::strip_nulls(&enc(&d), &mut o).map(|_| o) }).ok().and_then(|r| r.ok()).unwrap_or_default();
+                    let f = vec![enc(&d), own, rebuilt];
+                    (d, f)
+                })
+                .collect(),
+        );
+        sp.push(Space::new("non-finite numbers as elements, operands in three byte forms (model, Value encoder, rebuilt)", forms.len() as u64, move |i, acc| {
+            const FN: [&str; 3] = ["model-bytes", "Value-encoder-bytes", "rebuilt-by-strip_nulls"];
+            let (a, fa) = &forms[i as usize];
+            for (b, fb) in forms.iter() {
+                let ei = ops::array_intersection(a, b);
+                let ee = ops::array_except(a, b);
+                let eo = ops::array_overlap(a, b);
+                for (x, xa) in fa.iter().enumerate() {
+                    for (y, yb) in fb.iter().enumerate() {
+                        acc.nontrivial += 1;
+                        let ctx = || json!({"a": format!("{:?}", a), "b": format!("{:?}", b), "a_form": FN[x], "b_form": FN[y], "a_hex": hex(xa), "b_hex": hex(yb)});
+                        call("nonfinite:intersection", |buf| jsonb::array_intersection(xa, yb, buf), &ei, acc, &ctx);
+                        call("nonfinite:except", |buf| jsonb::array_except(xa, yb, buf), &ee, acc, &ctx);
+                        acc.eval();
+                        match guard(|| jsonb::array_overlap(xa, yb)) {
+                            Ok(Ok(o)) if o == eo => {}
+                            other => acc.vio("nonfinite:overlap:differs-from-multiset-model", || json!({"ctx": ctx(), "expected": eo, "observed": format!("{:?}", other.map_err(|p| panic_class(&p)))})),
+                        }
+                    }
+                }
+            }
+            for (x, xa) in fa.iter().enumerate() {
+                let ctx = || json!({"a": format!("{:?}", a), "a_form": FN[x]});
+                call("nonfinite:distinct", |buf| jsonb::array_distinct(xa, buf), &ops::array_distinct(a), acc, &ctx);
+            }
+        }));
+    }
     // texts whose numbers have a spelling the model printer never writes (-0, exponent forms, padded
     // fractions): what they denote decides (one zero, whatever its sign was written as)
     {
